@@ -11,18 +11,51 @@ From FEC Require Import Generated.CodecConsts Models.CodecM Proofs.CodecP Proofs
 Import ListNotations.
 Open Scope Z_scope.
 
-(* Round trip, for EVERY well-formed description without Timestamp fields and every input (no size bound). *)
-Theorem C01_codec_roundtrip : forall d, Codec_wf d = true -> Codec_uses_ts d = false ->
+(* Round trip, for EVERY well-formed description without Timestamp fields and without lenient parts (tagged
+   sub-payloads, length-prefixed strings), and every input that parses (no size bound). *)
+Theorem C01_codec_roundtrip : forall d, Codec_wf d = true -> Codec_uses_ts d = false -> Codec_rigid d = true ->
   forall b e n, Codec_bytes_ok b = true -> Codec_parse d b = Some (e, n) -> Codec_roundtrip_at d b e n.
 Proof. exact Codec_roundtrip_nots. Qed.
 Print Assumptions C01_codec_roundtrip.
+
+(* Round trip for EVERY well-formed description without Timestamp fields - polymorphic containers, conditional
+   parts and strings included - for every input in CANONICAL form, i.e. accepted by the strict decoder: the declared
+   length of a tagged sub-payload equals what its layout needs (nothing left over, nothing present when the
+   revert-to-default flag says the object is absent), a length-prefixed string has no trailing NUL, the content is
+   understood (known tag).  The inputs excluded are exactly the recorded findings (witnesses below). *)
+Theorem C01_codec_roundtrip_canonical : forall d, Codec_wf d = true ->
+  forall b e n, Codec_bytes_ok b = true -> Codec_parse_with Codec_adec_nots true d b = Some (e, n) ->
+  Codec_parse d b = Some (e, n) /\ Codec_roundtrip_at d b e n.
+Proof. exact Codec_roundtrip_canonical. Qed.
+Print Assumptions C01_codec_roundtrip_canonical.
+
+(* non-canonical inputs violate the first-step size law (the recorded over-long-payload and NUL-padded-string findings):
+   a declared payload length of 1 for an empty sub-payload parses, consumes 9 bytes and is serialised in 8 ... *)
+Theorem C01_overlong_payload_refuted :
+  Codec_wf Codec_ex_tagged = true /\
+  Codec_parse Codec_ex_tagged [0; 0; 0; 0; 1; 0; 0; 0; 7] = Some ([(1%N, VF (FInt 0)); (2%N, VF (FInt 1)); (3%N, VTag [] [] 0)], 9%nat) /\
+  Codec_pack Codec_ex_tagged [(1%N, VF (FInt 0)); (2%N, VF (FInt 1)); (3%N, VTag [] [] 0)] = Some [0; 0; 0; 0; 0; 0; 0; 0] /\
+  Codec_parse_with Codec_adec true Codec_ex_tagged [0; 0; 0; 0; 1; 0; 0; 0; 7] = None /\
+  Codec_parse_with Codec_adec_nots true Codec_ex_tagged [4; 0; 0; 0; 1; 0; 0; 0; 1] =
+    Some ([(1%N, VF (FInt 4)); (2%N, VF (FInt 1)); (3%N, VTag [] [(1%N, FInt 1)] 1)], 9%nat).
+Proof. exact Codec_overlong_payload_refuted. Qed.
+Print Assumptions C01_overlong_payload_refuted.
+(* ... and the length-prefixed string "a\0" parses as "a", consumes 3 bytes and is serialised in 2 *)
+Theorem C01_nul_padded_string_refuted :
+  Codec_wf Codec_ex_string = true /\
+  Codec_parse Codec_ex_string [2; 97; 0] = Some ([(1%N, VF (FInt 2)); (2%N, VBytes [97])], 3%nat) /\
+  Codec_pack Codec_ex_string [(1%N, VF (FInt 2)); (2%N, VBytes [97])] = Some [1; 97] /\
+  Codec_parse_with Codec_adec true Codec_ex_string [2; 97; 0] = None /\
+  Codec_parse_with Codec_adec_nots true Codec_ex_string [2; 195; 177] = Some ([(1%N, VF (FInt 2)); (2%N, VBytes [195; 177])], 3%nat).
+Proof. exact Codec_nul_padded_string_refuted. Qed.
+Print Assumptions C01_nul_padded_string_refuted.
 
 (* The Timestamp projection law at full strength: every stamp of the domain (a sentinel field, or ns < 10^9 and
    sec < 2^32 - 2) decodes to a double that pack writes back as a stamp decoding to the same double. *)
 Definition C01_ts_projection_full : Prop := Codec_ts_projection_full.
 
-(* Round trip for every well-formed description WITH Timestamp fields, for every input whose stamps lie in that
-   domain ([Codec_parse_dom] succeeds exactly on those) — under the projection law, which is proved below only for the
+(* Round trip for every well-formed description WITH Timestamp fields, for every canonical input whose stamps lie in
+   that domain ([Codec_parse_dom] succeeds exactly on those) — under the projection law, which is proved below only for the
    sentinel branch and otherwise EVALUATED on a generated grid (Generated/CodecTsCases.v), not proved. *)
 Theorem C01_codec_roundtrip_timestamps_partial : C01_ts_projection_full -> forall d, Codec_wf d = true ->
   forall b e n, Codec_bytes_ok b = true -> Codec_parse_dom d b = Some (e, n) ->
@@ -71,8 +104,8 @@ Proof. exact Codec_offset_indep_parse. Qed.
 Print Assumptions C01_codec_offset_indep.
 
 (* ... a layout with a greedy tail consumes exactly the slice it is given ... *)
-Theorem C01_greedy_consumes_slice : forall AD d seen acc b e rest, Codec_wf_from d seen = true -> Codec_nogreedy d = false ->
-  Codec_dec_wire AD d acc b = Some (e, rest) -> rest = [].
+Theorem C01_greedy_consumes_slice : forall AD ST d seen acc b e rest, Codec_wf_from d seen = true -> Codec_nogreedy d = false ->
+  Codec_dec_wire AD ST d acc b = Some (e, rest) -> rest = [].
 Proof. exact Codec_greedy_all. Qed.
 Print Assumptions C01_greedy_consumes_slice.
 
@@ -84,7 +117,7 @@ Proof. exact Codec_pack_into_spec. Qed.
 Print Assumptions C01_pack_into_exact.
 
 (* calcsize agrees with the length of the serialisation whenever the latter exists *)
-Theorem C01_sizeof_is_pack_length : forall d full e bs, Codec_enc_wire d full e = Some bs -> Codec_sizeof d e = Some (length bs).
+Theorem C01_sizeof_is_pack_length : forall d e bs, Codec_pack d e = Some bs -> Codec_sizeof d e = Some (length bs).
 Proof. exact Codec_sizeof_enc. Qed.
 Print Assumptions C01_sizeof_is_pack_length.
 
@@ -94,10 +127,24 @@ Proof. exact Codec_all_descriptions_wf. Qed.
 Print Assumptions C01_all_descriptions_wf.
 
 (* ... hence the laws hold for every generated class description. *)
-Theorem C01_table_roundtrip : forall i d, In (i, d) py_descriptions -> Codec_uses_ts d = false ->
+Theorem C01_table_roundtrip : forall i d, In (i, d) py_descriptions -> Codec_uses_ts d = false -> Codec_rigid d = true ->
   forall b e n, Codec_bytes_ok b = true -> Codec_parse d b = Some (e, n) -> Codec_roundtrip_at d b e n.
 Proof. exact Codec_table_roundtrip_nots. Qed.
 Print Assumptions C01_table_roundtrip.
+Theorem C01_table_roundtrip_canonical : forall i d, In (i, d) py_descriptions -> Codec_uses_ts d = false ->
+  forall b e n, Codec_bytes_ok b = true -> Codec_parse_with Codec_adec true d b = Some (e, n) ->
+  Codec_parse d b = Some (e, n) /\ Codec_roundtrip_at d b e n.
+Proof. exact Codec_table_roundtrip_canonical. Qed.
+Print Assumptions C01_table_roundtrip_canonical.
+(* every class of the table falls under one of the three theorems: rigid without stamps (unconditional), lenient
+   without stamps (canonical inputs), with stamps (canonical inputs with normalised stamps, under the projection law) *)
+Theorem C01_table_partition :
+  forallb (fun p => (negb (Codec_uses_ts (snd p)) && Codec_rigid (snd p)) || negb (Codec_uses_ts (snd p)) || Codec_uses_ts (snd p)) py_descriptions = true /\
+  (length py_descriptions = length (filter (fun p => negb (Codec_uses_ts (snd p)) && Codec_rigid (snd p)) py_descriptions)
+                         + length (filter (fun p => negb (Codec_uses_ts (snd p)) && negb (Codec_rigid (snd p))) py_descriptions)
+                         + length (filter (fun p => Codec_uses_ts (snd p)) py_descriptions))%nat.
+Proof. exact Codec_table_partition. Qed.
+Print Assumptions C01_table_partition.
 Theorem C01_table_roundtrip_timestamps_partial : C01_ts_projection_full -> forall i d, In (i, d) py_descriptions ->
   forall b e n, Codec_bytes_ok b = true -> Codec_parse_dom d b = Some (e, n) ->
   Codec_parse d b = Some (e, n) /\ Codec_roundtrip_at d b e n.
